@@ -35,3 +35,11 @@ Definition run_pub (legacy : bool) (ops : list pop) : jv :=
   JL [ JL (map (jv_outcome jv_pobs) (ptrace legacy [] ops));
        (if forallb pop_ok ops
         then JL (map (fun o => jv_outcome jv_pobs (Val o)) (spec_ptrace [] ops)) else jnone) ].
+
+(* two-thread schedule: [model answers; demanded answers (kernel order) or none; lock_ok] *)
+Definition jv_tagged (a : bool * pobs) : jv := JL [jbool (fst a); jv_pobs (snd a)].
+Definition run_race (sched : list cstep) : jv :=
+  JL [ JL (map (jv_outcome jv_tagged) (ctrace [] (None, None) sched));
+       (if sched_ok (None, None) sched
+        then JL (map (fun a => jv_outcome jv_tagged (Val a)) (spec_ctrace [] (None, None) sched)) else jnone);
+       jbool (lock_ok (None, None) sched) ].
